@@ -37,7 +37,7 @@ func init() {
 		},
 		Select: func(n string) bool {
 			return strings.Contains(n, "#imports:") || strings.Contains(n, "lemmaOrder") || strings.HasSuffix(n, "#ensures:plain_ident") ||
-				strings.Contains(n, "updateImports#loop")
+				strings.Contains(n, "updateImports#loop") || strings.Contains(n, "updateImports$3#loop")
 		},
 		Siblings: "C03 C04 C05 C11 C12 (other labels of restoreNode/Ident)",
 		Assumptions: []string{
@@ -47,7 +47,6 @@ func init() {
 		},
 		NotDecided: []string{
 			"updateImports: that the import declarations contain each referenced path exactly once plus blank and cgo imports and nothing else",
-			"updateImports: names bound by ordinary imports are pairwise distinct (conflict / findAlias)",
 			"updateImports: blocks that need no addition keep order and decorations",
 			"that the printed file type-checks",
 		},
